@@ -731,9 +731,9 @@ func (interp *Interpreter) cfg(root *node, sc *scope, importPath, pkgName string
 					if dest.typ.incomplete {
 						return
 					}
-					// A blank destination never denotes an existing variable: outside of the global
-					// scope, it always gets a fresh frame location, with the type of its own source.
-					if sc.global && isGlobalDefine(n) || dest.ident != "_" && sc.isRedeclared(dest) {
+					// A blank destination never denotes an existing variable: it always gets
+					// a fresh frame location, with the type of its own source.
+					if dest.ident != "_" && (sc.global && isGlobalDefine(n) || sc.isRedeclared(dest)) {
 						if n.anc != nil && n.anc.anc != nil && (n.anc.anc.kind == forStmt7 || n.anc.anc.kind == rangeStmt) {
 							// check for redefine of for loop variables, which are now auto-defined in go1.22
 							init := n.anc.anc.child[0]
